@@ -161,6 +161,18 @@ def gen_items(ctx):
             if name in ("mod", "div_floor", "div_ceil", "div") and rng.random() < 0.3:
                 b = rng.choice([1, -1, 2, -2, 3, -3, 7, -7, 10, (1 << 63), -(1 << 63), (1 << 64) + 1])
             add(call_form(rng, name, op, [lit(a), lit(b)]), model(a, b), name, (a, b))
+    # products / quotients / differences that land exactly on the 64-bit edge
+    for a, b in [(1 << 63, -1), (-1, 1 << 63), (-(1 << 63), -1), (1 << 62, 2), (1 << 62, -2), (-(1 << 62), 2), (1 << 32, 1 << 31),
+                 (-(1 << 32), 1 << 31), (3037000500, 3037000500), ((1 << 64), -1), ((1 << 63) + 1, -1)]:
+        for name in ("mul", "div_floor", "div_ceil", "add", "sub", "mod", "gcd", "lcm", "bit_and", "bit_or", "bit_xor"):
+            model, op = BIN[name]
+            x = call_form(rng, name, op, [lit(a), lit(b)])
+            v = model(a, b)
+            add(x, v, name, (a, b))
+            if isinstance(v, int) and not isinstance(v, bool):
+                L = lit(v)
+                items.append({"expr": f"({x}, {x} == {L}, hash({x}) == hash({L}), cmp({x}, {L}), ({x}).to_str(), true)",
+                              "expect": (v, True, True, 0, str(v), True), "op": "route:edge_" + name, "operands": (a, b)})
     for name, (model, op) in UN.items():
         for _ in range(ctx.pick(60, 1200)):
             a = rng.choice(pool)
@@ -181,6 +193,11 @@ def gen_items(ctx):
         a = rng.choice(pool + [10 ** 308, 10 ** 309, -(10 ** 309), (1 << 1023), (1 << 1024) - 1, 1 << 1024, 10 ** 400, (1 << 53) + 1, -(1 << 53) - 1])
         try:
             exp = float(a)
+            if int(exp) != a:
+                # not representable: either neighbouring double is accepted (the book does not fix a rounding)
+                lo = exp if int(exp) < a else math.nextafter(exp, -math.inf)
+                hi = exp if int(exp) > a else math.nextafter(exp, math.inf)
+                exp = AnyOf(lo, hi) if math.isfinite(hi) and math.isfinite(lo) else AnyOf(lo if math.isfinite(lo) else hi, Err())
         except OverflowError:
             exp = Err()
         add(f"to_float({lit(a)})", exp, "to_float", (a,))
@@ -383,6 +400,7 @@ def run(ctx):
     return {"coverage": cov, "broken": broken, "assumptions": [
         "big integer literals are written as \"...\".to_int() (literals beyond i128 are not integers in the grammar)",
         "int/int true division is accepted within 1 ulp of the correctly rounded quotient",
+        "to_float of an integer that is not a double may be either neighbouring double; representable integers must convert exactly",
         "digits(0) may be [] or [0]; lcm(0,0) may be 0 or an error (book and code disagree, neither is inexact)",
         "pow exponents <= 100 and results <= 40000 bits"]}
 
